@@ -63,7 +63,7 @@ type Sys struct {
 	Hub    *msghub.Hub
 	Lua    *luahost.Host
 	Router *mux.Router
-	nconn  int
+	nconn  atomic.Int64
 }
 
 // New assembles a system.
@@ -173,15 +173,13 @@ func newConn(serve func(net.Conn)) *Conn {
 
 // DialSMTP starts a real SMTP session on an in-memory connection.
 func (s *Sys) DialSMTP() *Conn {
-	s.nconn++
-	id := s.nconn
+	id := int(s.nconn.Add(1))
 	return newConn(func(c net.Conn) { s.SMTP.VerifServeConn(id, c) })
 }
 
 // DialPOP3 starts a real POP3 session on an in-memory connection.
 func (s *Sys) DialPOP3() *Conn {
-	s.nconn++
-	id := s.nconn
+	id := int(s.nconn.Add(1))
 	return newConn(func(c net.Conn) { s.POP3.VerifServeConn(id, c) })
 }
 
